@@ -782,3 +782,31 @@ impl PeerHandler {
         }
     }
 }
+
+/// Verification harness only: run the peer task over an in-memory pipe, read-only state.
+#[cfg(feature = "verif")]
+#[allow(missing_docs)]
+impl PeerHandler {
+    pub async fn verif_run_mem(&mut self, mem: tokio::io::DuplexStream) {
+        self.connection.verif_with_mem(mem);
+        self.run().await;
+    }
+
+    /// (peer chokes us, peer interested, keep-alive ticks, deferred frames, piece being
+    /// downloaded, piece loaded for upload, bytes buffered in the connection)
+    pub fn verif_state(&self) -> (bool, bool, u32, usize, Option<usize>, Option<usize>, usize) {
+        (
+            self.peer_state.choked,
+            self.peer_state.interested,
+            self.peer_state.keep_alive,
+            self.msg_buff.len(),
+            self.piece_rx.as_ref().map(|p| p.piece_index),
+            self.piece_tx.as_ref().map(|p| p.piece_index),
+            self.connection.verif_buffer_len(),
+        )
+    }
+
+    pub fn verif_left(piece_length: usize) -> Vec<(usize, usize)> {
+        PieceRx::left(piece_length).into_iter().collect()
+    }
+}
